@@ -36,6 +36,9 @@ def point_body(case, rec):
     from vlib.meshdrive import exc_site
     holder = {}
     lifecycle = case['xi'] % 3 == 0
+    # the value of evaluate does not depend on the operator's straight-panel switch: on polygons every other case builds
+    # the operator with the switch on
+    want_exact = bool(case['xi'] % 2) and get_geo(case['spec']['curve']).polygon
 
     def hook(lv, i):
         # the adaptive driver keeps ONE operator across its loops: it is constructed on the initial mesh and the
@@ -43,7 +46,7 @@ def point_body(case, rec):
         from src.single_layer import SingleLayerOperator
         with repo.quiet():
             if i == 0:
-                holder['SL'] = SingleLayerOperator(lv.mesh, pw_exact=False)
+                holder['SL'] = SingleLayerOperator(lv.mesh, pw_exact=want_exact)
             elif i % 2 == 0:
                 holder['SL']._init_elems(list(lv.mesh.leaf_elements))
     try:
@@ -86,7 +89,8 @@ def point_body(case, rec):
             SL._init_elems(list(live.mesh.leaf_elements))
         rec.cls('operator_kept_across_refinements')
     else:
-        SL = operator(live, False)
+        SL = operator(live, want_exact)
+    rec.cls('operator_switch_on' if want_exact else 'operator_switch_off')
     try:
         with repo.quiet():
             val = float(SL.evaluate(e, t, x, P))
@@ -284,6 +288,19 @@ def facing_family():
     return out
 
 
+def old_thin_family():
+    """deterministic: trial elements of a thin first time slab (h_t = 0.002) seen from times 0.03 ... 0.3 later at 24
+    positions around the curve (kernel arguments |x - y|^2 / 4 (t - t_mid) from 0 to beyond 10 on every curve)"""
+    out = []
+    for curve in ('UnitSquare', 'PiSquare', 'LShape', 'Circle', 'Stadium1'):
+        for z in (0.03, 0.06, 0.1, 0.3):
+            for j in range(24):
+                out.append({'kind': 'point', 'spec': {'kind': 'param', 'curve': curve, 'ts': [0.0, 0.002, 1.0], 'xs': None},
+                            'ops': [['unifx']], 'ei': j * 5 + 1, 'tcl': 'far_after', 'tpar': z / 0.998, 'xcl': 'uniform',
+                            'xpar': (j + 0.37) / 24.0, 'xi': j, 'side': 1})
+    return out
+
+
 def facing_all_leaves():
     """every leaf of the uniformly refined thin plate with the point exactly opposite, at a time for which the kernel
     argument delta^2/(4 tau) is about 3 (the value is sizeable) at parabolic ratio 11 / 2.8: the leaves in the middle
@@ -300,7 +317,7 @@ def facing_all_leaves():
 
 def run(ctx):
     fam = facing_family()
-    for case in ctx.mine((fam if not ctx.quick else fam[(ctx.seed % 2)::2]) + facing_all_leaves()):
+    for case in ctx.mine((fam if not ctx.quick else fam[(ctx.seed % 2)::2]) + facing_all_leaves() + old_thin_family()):
         body(case, ctx.rec)
     n = ctx.share(32000 if ctx.quick else 320000)
     explore(ctx, cases(), body, n)
